@@ -34,7 +34,7 @@ TEXT = {
  "C06": "Static decision of the exclusion clause only: text can reach a cue only under PID / stream-id / data-unit-id / framing / Hamming / magazine / receiving / row-range / start-box / parity guards; table well-formedness and the colour-code table. Page scheduling, timing and termination behaviour are not decided.",
  "C16": "Static decision of the agreement clauses: per format writer separator ∈ reader separators, millisecond scale 3, 2 or 3 written digits, each codec uses its own wrappers, STL formatter and parser share the frame-rate field. Truncation, canonical fields, monotonicity and the 30 fps frame loss are value-level and not decided.",
  "C07": "Static decision of the structural clauses of any-to-any conversion: dispatch tables of Open/Write agree, are case-insensitive and default to the invalid-extension error; writers refuse an empty list before writing; the CLI table equals the documented one; writers tolerate every optional part other readers leave unset (no unguarded dereference in the writers' closure). Cue preservation across format pairs is not decided.",
- "C08": "Static all-paths decision, over the closure of the six readers, Open, the five writers and the exported helpers, that none of the panic classes Go code can raise itself (nil dereference, nil-map store, index/slice out of range, integer division by zero, failing single-result type assertion, explicit panic/Fatal) is reachable, modulo 12 audited residue sites each with a written reason (some backed by supporting rules), and that every loop has a progress argument. Panics inside dependencies, memory exhaustion and the linear-time bound are not decided.",
+ "C08": "Static all-paths decision, over the closure of the six readers, Open, the five writers and the exported helpers, that none of the panic classes Go code can raise itself (nil dereference, nil-map store, index/slice out of range, integer division by zero, failing single-result type assertion, explicit panic/Fatal) is reachable, modulo 11 audited residue sites each with a written reason (some backed by supporting rules), and that every loop has a progress argument. Panics inside dependencies, memory exhaustion and the linear-time bound are not decided.",
  "C09": "Static all-paths decision of necessary structural clauses of Add: writes only StartAt, EndAt and the item slice; both boundaries get the same update; the in-place deletion rewinds the index; CLI sync → Add(-s). The arithmetic (exact d, clamp, which cues die) is not decided.",
  "C10": "Static decision of necessary structural clauses of Fragment: frame; new pieces are whole copies; Order() after every insertion; CLI. Where the cuts fall is not decided (the known last-listed-cue fault stays invisible).",
  "C11": "Static decision of necessary structural clauses of Unfragment: frame; delete-rewind; Order() before the scan; same text function on both cues reading every run. Merge semantics and the inverse law are not decided.",
@@ -217,6 +217,27 @@ TEXT_ADD7 = {
  "C14": " Duration is the end of a cue exactly as stored.",
  "C17": " A block cut by a short read is not taken for a truncated one.",
 }
+TECH_ADD8 = {
+ "C01": "running state handed to parseTextSrt is reset together; no value remembered across loop trips outlives a change of its source; reader-flow and split-function rules of C17 also run here; leading digits '0'+v/10 bounded",
+ "C02": "a snapshot kept across tokens is dropped at every change of the tag stack; reader-flow and split-function rules; cue settings written through a helper receiving the key with its separator; leading digits bounded",
+ "C03": "leading digits '0'+v/10 of a written timestamp bounded (hours are not)",
+ "C04": "reader-flow and split-function rules; section switches read in helpers; leading digits bounded",
+ "C05": "a field derived from another field of the GSI block under construction is computed after the last store into that field",
+ "C06": "newTeletextPageBuffer evaluated for pages 100-899: none stored as (magazine 0, page 0), the no-page-selected pair",
+ "C07": "escape tables (staged programs) also decided here; operations called before the CLI switch count for every sub-command; a Write hoisted behind the switch belongs to every case; derived fields computed last; running state reset together; leading digits bounded",
+ "C08": "ok-correlated results of library functions (non-nil whenever the final bool result is true); len(s) from HasPrefix and HasSuffix together; TagAttr as a progress primitive",
+ "C09": "operations called before the CLI switch count for every sub-command",
+ "C12": "Order through a sorted slice of (cue, start) pairs with full write-back; Merge's add-if-absent followed into helpers, with the returned map stored into the receiver when the helper may allocate",
+ "C16": "leading digits '0'+v/10 of a written timestamp bounded",
+}
+TEXT_ADD8 = {
+ "C01": " An unterminated <font> of one cue does not colour the next.",
+ "C02": " Text after an inner closing tag is no longer reported under that tag.",
+ "C03": " Hours of 100 and more are written with all their digits.",
+ "C05": " Open-subtitling vertical positions are not clamped to teletext rows.",
+ "C06": " Selecting page 800 reads page 800.",
+ "C09": " The CLI does not reorder cues before shifting them.",
+}
 for k, v in TECH_ADD.items():
     TECH[k] += "; " + v
 for k, v in TEXT_ADD.items():
@@ -244,6 +265,10 @@ for k, v in TEXT_ADD6.items():
 for k, v in TECH_ADD7.items():
     TECH[k] += "; " + v
 for k, v in TEXT_ADD7.items():
+    TEXT[k] += v
+for k, v in TECH_ADD8.items():
+    TECH[k] += "; " + v
+for k, v in TEXT_ADD8.items():
     TEXT[k] += v
 NOTE = "Assumes P0 (non-nil receivers/arguments), P1 (non-nil model elements, map keys = IDs), library contracts in internal/chk/contracts.go, and the fidelity of go/ssa + VTA (x/tools v0.29.0). Audited residue entries in rules/residue.txt are trusted."
 props = [json.loads(l) for l in open("/verif/properties.jsonl")]
